@@ -32,15 +32,7 @@ fn main() {
     let code = match part {
         "C14seq" => run(part, seq::prog_strategy(), n, seed, |p| seq::run_prog(p).map(|_| ())),
         "C15kinds" => run(part, kinds::case_strategy(), n, seed, kinds::run_case),
-        // the open finding F9a ends a case early (the guards concerned are forgotten, which Miri is
-        // told to ignore); everything up to that point and every other case is checked by Miri
-        "C12mix" | "C15mix" => run(part, mixseq::case_strategy(), n, seed, |c| match mixseq::run_case(c) {
-            Err(m) if m.contains(mixseq::F9A_MARK) => {
-                println!("KNOWN F9a");
-                Ok(())
-            }
-            r => r.map(|_| ()),
-        }),
+        "C12mix" | "C15mix" => run(part, mixseq::case_strategy(), n, seed, |c| mixseq::run_case(c).map(|_| ())),
         "C16seq" => run(part, cacheseq::case_strategy(), n, seed, |c| cacheseq::run_case(c).map(|_| ())),
         "C17seq" => run(part, accessseq::case_strategy(), n, seed, |c| accessseq::run_case(c).map(|_| ())),
         "C20serde" => run(part, serdechk::case_strategy(), n, seed, serdechk::run_case),
